@@ -3,7 +3,7 @@ import z3
 from harness import *
 from wrapbase import *
 
-TOKS = ['\x1b[1m', '\x1b]8;;x\x1b\\', '\x1b]0;c:\\a\x07']
+TOKS = ['\x1b[1m', '\x1b]8;;x\x1b\\', '\x1b]0;c:\\a\x07', '\x1b[38;2;255;128;0m']
 
 
 class C13(WrapHarness):
